@@ -261,6 +261,14 @@ pub fn run(ctx: &Ctx) {
             ("vnone", Value::None),
         ]);
         let mut out = vec![];
+        // membership in a list literal: every candidate is evaluated, also those behind the one that matches
+        for tail in [Expr::div(Expr::value(1), Expr::value(0)), Expr::reff("nosuchfield"), Expr::add(Expr::value(1), Expr::Value(Value::Float(1.0))), Expr::symbol("nosuchsymbol")] {
+            for item in [Expr::reff("vi"), Expr::value(3), Expr::index(Expr::reff("vl"), reval::expr::Index::Vec(9))] {
+                out.push(EvalCase::plain(Expr::contains(Expr::Vec(vec![Expr::reff("vi"), tail.clone()]), item.clone()), facts.clone()));
+                out.push(EvalCase::plain(Expr::contains(Expr::Vec(vec![Expr::value(3), Expr::value(4), tail.clone(), Expr::value(3)]), item.clone()), facts.clone()));
+                out.push(EvalCase::plain(Expr::contains(Expr::Vec(vec![tail.clone(), Expr::reff("vi")]), item), facts.clone()));
+            }
+        }
         for k in crate::data::BINARY_KINDS {
             for e in &nan_exprs {
                 out.push(EvalCase::plain(crate::data::mk2(k, e.clone(), e.clone()), facts.clone()));
